@@ -115,7 +115,7 @@ def read_frame_obligations(repo, tabs):
             recs.append({"name": "%s@draft%d[%s]/R/schema-reads" % (f, d, k), "kind": "R",
                          "status": "discharged" if ok else "failed", "solver": "frames",
                          "note": "reads of `schema`: %s (allowed siblings %s)%s" % (sorted(keys), sorted(allowed), "; " + "; ".join(problems) if problems else ""),
-                         "search": {"draft": d, "keyword": k, "mode": "siblings", "extra_keys": sorted(keys - allowed)}})
+                         "search": {"draft": d, "keyword": k, "extra_siblings": sorted(keys - allowed)}})
             # other parameters must not be used as the schema: value/instance are data
     return recs
 
@@ -448,6 +448,77 @@ def format_dependency_obligations(repo, registry):
     return recs
 
 
+def metaschema_ground_obligations(repo):
+    """T: closed facts about the four bundled metaschema files, decided by evaluation"""
+    from spec.pyops import PyOps
+    from spec.pointer import ptr_eval_py, PointerError
+    recs = []
+    for d in drafts.DRAFTS:
+        meta = repo.schemas[d]
+        try:
+            ok = bool(drafts.V_concrete_schema(PyOps(d, meta_root=meta), meta, meta))
+        except Exception as e:      # noqa
+            ok = False
+        recs.append({"name": "schemas/draft%d.json/T/self-acceptance" % d, "kind": "T", "status": "discharged" if ok else "failed", "solver": "tables",
+                     "note": "the bundled draft-%d metaschema satisfies itself (executable spec)" % d, "search": {"draft": d, "keyword": "type"}})
+        refs = []
+
+        def walk(x):
+            if isinstance(x, dict):
+                if isinstance(x.get("$ref"), str):
+                    refs.append(x["$ref"])
+                for v in x.values():
+                    walk(v)
+            elif isinstance(x, list):
+                for v in x:
+                    walk(v)
+        walk(meta)
+        for r in sorted(set(refs)):
+            ok = r.startswith("#")
+            if ok:
+                try:
+                    tgt = ptr_eval_py(meta, r[1:])
+                    ok = isinstance(tgt, dict) or (d >= 6 and isinstance(tgt, bool))
+                except PointerError:
+                    ok = False
+            recs.append({"name": "schemas/draft%d.json/T/ref:%s" % (d, r), "kind": "T", "status": "discharged" if ok else "failed", "solver": "tables",
+                         "note": "$ref %r of the metaschema designates a schema inside the same document (no retrieval)" % r})
+        idk = drafts.ID_KEY[d]
+        recs.append({"name": "schemas/draft%d.json/T/id" % d, "kind": "T", "status": "discharged" if isinstance(meta.get(idk), str) and meta.get(idk) else "failed",
+                     "solver": "tables", "note": "the metaschema carries its id under %r: %r (pre-registered, so references to it are served locally)" % (idk, meta.get(idk))})
+    return recs
+
+
+class C11(Spec):
+    pid = "C11"
+    level = "proof"
+    design_ref = "DESIGN.md section 8 C11"
+    trusted = ["rests on the contracts of iter_errors and of the keyword functions (C01, C03) instantiated with the concrete, well-formed META_d as schema and an arbitrary JSON value as instance",
+               "the `$ref: \"#\"` / `#/definitions/...` references inside the metaschemas are resolved by the resolver functions: their transparency is C02's claim; until it is discharged the step from Vp(META_d, candidate) to the specification's V is covered by the bounded candidate sweep",
+               "the independent evaluator the property asks for is the executable spec (spec/drafts.py with spec/pyops.py), itself checked against the official suite in the thorough tier"]
+    assumptions = ["termination of metaschema validation: every $ref of the four files sits under an applicator that descends into the candidate (read off the files)"]
+    explanation = "check_schema is proved to return normally exactly when cls(META_SCHEMA).iter_errors(candidate) is empty and otherwise to raise SchemaError.create_from(first error) and nothing else; the closed facts about the four files (self-acceptance, every $ref designates a schema in the same document, ids present) are decided by evaluation."
+
+    def tasks(self, root, tier):
+        from contracts import tasks_entry
+        return [t for t in tasks_entry.entry_tasks(root, _tmo(tier)) if t.which in ("check_schema", "create_from")]
+
+    def select(self, ob, r):
+        return True
+
+    def failure_kinds(self):
+        return ("F", "S")
+
+    def table_obligations(self, repo, tabs):
+        return metaschema_ground_obligations(repo)
+
+    def standins(self, root, tier):
+        from pyvc import driver
+        r = driver.rt_call("pyvc.rt_kw", {"cmd": "search_meta", "root": root}, root, timeout=3000)
+        return [{"name": "candidate-sweep", "scope": "every JSON kind and 33 shaped values as the value of every keyword the metaschema names (plus an unknown keyword and $ref), bare values, nested malformed schemas and the metaschema itself, x 4 drafts; check_schema against the executable spec's verdict on the bundled metaschema",
+                 "cases": r["tried"], "failures": r["failures"], "replay_kind": "kw", "label": "bounded (not counted as proof)"}]
+
+
 class C12(Spec):
     pid = "C12"
     level = "proof"
@@ -579,6 +650,102 @@ class C20(Spec):
                  "cases": r["tried"], "failures": r["failures"], "replay_kind": "reg", "label": "bounded (not counted as proof)"}]
 
 
+def derivation_obligations(repo):
+    """C16: what derivation operations hand on, and that they copy rather than share (AST obligations)"""
+    import ast as _ast
+    recs = []
+
+    def rec(name, ok, note):
+        recs.append({"name": name, "kind": "W", "status": "discharged" if ok else "failed", "solver": "frames", "note": note})
+    # create(): class attributes are copies / the given behaviour parameters
+    cr = repo.units["validators:create"].node
+    cls = [n for n in _ast.walk(cr) if isinstance(n, _ast.ClassDef) and n.name == "Validator"]
+    body = {t.id: _ast.unparse(st.value) for c in cls for st in c.body if isinstance(st, _ast.Assign) for t in st.targets if isinstance(t, _ast.Name)}
+    want = {"VALIDATORS": "dict(validators)", "META_SCHEMA": "dict(meta_schema)", "TYPE_CHECKER": "type_checker", "ID_OF": "staticmethod(id_of)",
+            "_DEFAULT_TYPES": "dict(default_types)"}
+    for k, v in want.items():
+        rec("validators:create/O/class-attr:%s" % k, body.get(k) == v, "class attribute %s = %s (expected %s)" % (k, body.get(k), v))
+    # extend(): the four behaviour parameters of the parent are handed to create()
+    ex = repo.units["validators:extend"].node
+    calls = [n for n in _ast.walk(ex) if isinstance(n, _ast.Call) and _ast.unparse(n.func) == "create"]
+    kws = {k.arg: _ast.unparse(k.value) for c in calls for k in c.keywords}
+    for k, v in {"meta_schema": "validator.META_SCHEMA", "validators": "all_validators", "type_checker": "type_checker", "id_of": "validator.ID_OF", "version": "version"}.items():
+        rec("validators:extend/F/passes:%s" % k, len(calls) == 1 and kws.get(k) == v, "extend calls create(%s=%s) (expected %s)" % (k, kws.get(k), v))
+    src = _ast.unparse(ex)
+    rec("validators:extend/F/copies-table", "all_validators = dict(validator.VALIDATORS)" in src and "all_validators.update(validators)" in src,
+        "extend works on a copy of the parent's keyword table")
+    rec("validators:extend/F/default-type-checker", "if type_checker is None:\n        type_checker = validator.TYPE_CHECKER" in src,
+        "without type_checker the parent's is carried along")
+    # the class's methods look ids up through the closure variable id_of
+    init = _ast.unparse(repo.units["validators:create.Validator.__init__"].node)
+    rec("validators:create.Validator.__init__/F/id_of", "RefResolver.from_schema(schema, id_of=id_of)" in init, "a validator's own resolver is built with the class's id_of")
+    it = _ast.unparse(repo.units["validators:create.Validator.iter_errors"].node)
+    rec("validators:create.Validator.iter_errors/F/id_of", "scope = id_of(_schema)" in it, "iter_errors takes the scope of a subschema from the class's id_of")
+    cs = _ast.unparse(repo.units["validators:create.Validator.check_schema"].node)
+    rec("validators:create.Validator.check_schema/F/own-class", "cls(cls.META_SCHEMA).iter_errors(schema)" in cs, "check_schema validates with the class itself against its own META_SCHEMA")
+    # TypeChecker derivations return new objects
+    for m, want_src in (("redefine", "return self.redefine_many({type: fn})"), ("redefine_many", "return attr.evolve(self, type_checkers=self._type_checkers.update(definitions))"),
+                        ("remove", "return attr.evolve(self, type_checkers=checkers)")):
+        u = _ast.unparse(repo.units["_types:TypeChecker.%s" % m].node)
+        rec("_types:TypeChecker.%s/F/new-object" % m, want_src in u, "%s returns a new checker built from a persistent-map update (attr.evolve / pmap, assumed)" % m)
+    tc = [n for n in _ast.walk(repo.trees["_types"]) if isinstance(n, _ast.ClassDef) and n.name == "TypeChecker"]
+    fields = [t.id for c in tc for st in c.body if isinstance(st, _ast.Assign) for t in st.targets if isinstance(t, _ast.Name)]
+    frozen = any("frozen=True" in _ast.unparse(d) for c in tc for d in c.decorator_list)
+    rec("_types:TypeChecker/O/fields", fields == ["_type_checkers"] and frozen, "TypeChecker is frozen and its only state is the persistent map (fields %s)" % fields)
+    # FormatChecker instances own a copy of the registry
+    from pyvc import frames
+    ia = frames.init_assignments(repo, "_format:FormatChecker.__init__")
+    fi = repo.units["_format:FormatChecker.__init__"].node
+    both = any(isinstance(n, _ast.If) and any(isinstance(b, _ast.Assign) and "self.checkers" in _ast.unparse(b.targets[0]) for b in n.body)
+               and any(isinstance(b, _ast.Assign) and "self.checkers" in _ast.unparse(b.targets[0]) for b in n.orelse) for n in fi.body)
+    rec("_format:FormatChecker.__init__/O/checkers", both and ia and all(a == "checkers" and c == "fresh" for a, v, c, ln in ia),
+        "every construction path gives the instance its own copy of the registry (%s)" % [(a, c) for a, v, c, ln in ia])
+    ck = _ast.unparse(repo.units["_format:FormatChecker.checks._checks"].node)
+    rec("_format:FormatChecker.checks/F/instance-registry", "self.checkers[format] = (func, raises)" in ck, "checks registers in the receiver's own registry")
+    dc = _ast.unparse(repo.trees["_format"])
+    rec("_format:draft-checkers/O/separate", all(("draft%d_format_checker = FormatChecker()" % d) in dc for d in (3, 4, 6, 7)), "the four draft checkers are separate instances")
+    return recs
+
+
+class C16(Spec):
+    pid = "C16"
+    level = "proof"
+    design_ref = "DESIGN.md section 8 C16"
+    trusted = ["attr.evolve returns a new object and leaves its argument unchanged; pyrsistent pmap.update / .remove are persistent (assumed contracts of the dependencies)",
+               "class creation inside create() is modelled by its four behaviour parameters (keyword table copy, type checker, id_of closure and ID_OF, metaschema copy); the deprecation metaclass / DEFAULT_TYPES property is not modelled",
+               "meta-lemma (paper): iter_errors' contract is parametric in exactly those four parameters, so equal parameters give equal behaviour and an override changes only the dispatch case of the overridden keyword"]
+    assumptions = ["frame / ownership obligations are syntactic (pyvc/frames.py) and conservative"]
+    explanation = "Write frames: no derivation operation mutates a pre-existing checker, class or validator (only fresh objects, the object under construction, the two registries in validates, the receiver's own registry in checks). Ownership: create stores copies, FormatChecker instances copy the class registry on every construction path, the draft checkers are separate instances, TypeChecker is frozen over a persistent map. Hand-over: extend passes its parent's table copy, type checker, id_of and metaschema to create; the class's methods use the closure id_of; check_schema uses the class itself."
+
+    def tasks(self, root, tier):
+        from contracts import tasks_registry
+        return [t for t in tasks_registry.registry_tasks(root, _tmo(tier)) if t.which == "validates"] + \
+            tasks_core.core_tasks(root, _tmo(tier), drafts_=(7,), which=("is_type",))
+
+    def select(self, ob, r):
+        return True
+
+    def failure_kinds(self):
+        return ("D",)
+
+    def table_obligations(self, repo, tabs):
+        roots = ["_types:TypeChecker.redefine", "_types:TypeChecker.redefine_many", "_types:TypeChecker.remove", "_types:TypeChecker.is_type",
+                 "validators:create", "validators:extend", "validators:validates", "validators:validates._validates",
+                 "validators:_generate_legacy_type_checks", "validators:create.Validator.__init__", "_format:FormatChecker.__init__",
+                 "_format:FormatChecker.checks", "_format:FormatChecker.checks._checks", "_format:FormatChecker.check", "_format:FormatChecker.conforms"]
+        allowed = VALIDATION_WRITES + [("validators:validates._validates", "validators.[]"), ("validators:validates._validates", "meta_schemas.[]"),
+                                       ("_format:FormatChecker.checks._checks", "self.checkers.[]"), ("validators:create", "Validator.__name__"),
+                                       ("_utils:URIDict.__setitem__", "self.store.[]")]
+        w, _ = write_frame_obligations(repo, tabs, roots, allowed, "derivation")
+        return [r for r in w if not r["name"].startswith("frames/")] + derivation_obligations(repo)
+
+    def standins(self, root, tier):
+        from pyvc import driver
+        r = driver.rt_call("pyvc.rt_reg", {"cmd": "derive", "root": root}, root, timeout=3000)
+        return [{"name": "derivation-script", "scope": "a script of 24 derivation operations (redefine, redefine_many, remove, extend x 3 per draft, create, Validator(types=), checks, cls_checks, FormatChecker(), FormatChecker(formats=)); after each, every object created so far (4 draft classes, 3 type checkers, checkers, derived classes) is probed again on 19 schema/instance pairs, 36 is_type queries, 16 conforms queries",
+                 "cases": r["tried"], "failures": r["failures"], "replay_kind": "reg", "label": "bounded (not counted as proof)"}]
+
+
 class C18(Spec):
     pid = "C18"
     level = "other"
@@ -675,4 +842,4 @@ class C08(Spec):
         return out
 
 
-SPECS = {"C01": C01, "C03": C03, "C04": C04, "C05": C05, "C12": C12, "C13": C13, "C14": C14, "C20": C20, "C07": C07, "C18": C18, "C06": C06, "C08": C08, "C09": C09, "C10": C10}
+SPECS = {"C01": C01, "C03": C03, "C04": C04, "C05": C05, "C11": C11, "C12": C12, "C13": C13, "C14": C14, "C16": C16, "C20": C20, "C07": C07, "C18": C18, "C06": C06, "C08": C08, "C09": C09, "C10": C10}
